@@ -639,7 +639,7 @@ impl Simulation for C18Sim {
   }
   fn describe(&self) -> Describe {
     Describe {
-      rule: "a case = (fix-heavy generated project, 0-9 source files, half of the worlds with an HTML file carrying <script>/<style> documents; command scan -U or run -p P -r R [-l L] -U; plan = thread count x scheduling policy x seeded schedule x hash seed x optional write/read fault x 1-3 repeated invocations). Per round: the same command with --json=stream announces edits (replacementOffsets, replacement, document language); reference model = previous bytes with the announced edits applied greedily in start order, all tie orders enumerated; checked: every file's bytes are a model result, files without announced edits are byte-identical, `Applied N changes` equals the edits present, after a write fault the command fails and every other file is fully old or fully new. non-trivial = at least one edit applied and verified in a run with >=1 pre-emption or fired fault; distinct = (command, threads, scheduler event trace) not seen before".into(),
+      rule: "a case = (fix-heavy generated project incl. randomly generated rules, 0-9 source files incl. BOM/CRLF/no-trailing-newline/multi-byte, suppression comments naming real rule ids, half of the worlds with an HTML file carrying <script>/<style> documents; command scan -U or run -p P -r R [-l L] -U; plan = thread count x scheduling policy x seeded schedule x hash seed x optional write/read fault x 1-3 repeated invocations). Per round: the same command with --json=stream announces edits (replacementOffsets, replacement, document language); reference model = previous bytes of every file of the sandbox with the announced edits applied greedily in start order, all tie orders enumerated; checked: every file's bytes are a model result, files without announced edits are byte-identical, `Applied N changes` equals the edits present (also after a write error that left the file untouched), after a write fault the command fails and every other file is old, new, or (multi-document files) has the payloads processed so far. non-trivial = at least one edit applied and verified in a run with >=1 pre-emption or fired fault; distinct = (command, threads, scheduler event trace) not seen before".into(),
       assumptions: vec![
         "edits announced twice (identical range and replacement, e.g. by two identical rules) count as one edit for the splice".into(),
         "the file hit by an injected write fault is not asserted (std::fs::write is not atomic and the property does not promise atomicity)".into(),
